@@ -110,7 +110,7 @@ def _strip_comments(text):
                 raise SpecError("unterminated backtick")
             out.append(text[i:j + 1])
             i = j + 1
-        elif text[i] == "#" and (i == 0 or text[i - 1] in " \t\n"):
+        elif text[i] == "#" and (i == 0 or text[i - 1] in " \t\n") and not text.startswith("#[", i):
             j = text.find("\n", i)
             i = n if j < 0 else j
         else:
